@@ -232,7 +232,7 @@ def zlist(l):
     return "[" + "; ".join(("(%d)" % x) if x < 0 else str(x) for x in l) + "]"
 
 
-def generate(src):
+def generate(src, digest=None):
     T = parse_tables(src)
     A = Automaton(T)
     toks, acts, edges, pred = closure(A)
@@ -240,7 +240,7 @@ def generate(src):
     out = []
     out.append("(* GENERATED by translate/lrcert.py from /repo/parser/parser.y.go. Do not edit.")
     out.append("   UNTRUSTED certificate: re-checked by computation in proofs/LRCertInst.v.")
-    out.append("   tables-digest: %s *)" % tables_digest(T))
+    out.append("   digest: %s *)" % (digest or tables_digest(T)))
     out.append("Require Import Grits.Base.")
     out.append("Local Open Scope Z_scope.")
     out.append("")
@@ -270,4 +270,4 @@ def generate(src):
 
 
 if __name__ == "__main__":
-    sys.stdout.write(generate(open(sys.argv[1]).read()))
+    sys.stdout.write(generate(open(sys.argv[1]).read(), sys.argv[2] if len(sys.argv) > 2 else None))
